@@ -907,7 +907,7 @@ func checkGuardCoversUseRule(p *core.Program, r *core.Report, ps *types.Named, r
 			fmt.Sprintf("%d index sites ⊆ {%s}", nUse, strings.Join(gdesc, ", ")), "index sites not covered by the validator: "+strings.Join(uncovered, "; ")+strings.Join(notes, "; "))
 	}
 	r.Floor("prover methods", 2)
-	r.Floor("guarded index sites", 7)
+	r.Floor("guarded index sites", 4)
 }
 
 func stripConv(t *tf.Term) *tf.Term {
@@ -961,7 +961,7 @@ func checkMarshalArgs(p *core.Program, r *core.Report, ix *funcIndex) {
 		})
 	}
 	r.Count("custom-marshalled json.Marshal sites", n)
-	r.Floor("custom-marshalled json.Marshal sites", 4)
+	r.Floor("custom-marshalled json.Marshal sites", 2)
 }
 
 // checkStatusOnce decides the exactly-one-status typestate of the handler (O9.1 / O20.4) and returns the response helpers
